@@ -4,7 +4,7 @@
    whenever the latter succeeds; segs_of/abs_okb recognise rendered paths. *)
 From Coq Require Import List NArith ZArith Bool Lia.
 Import ListNotations.
-From TV Require Import Lib.Obs C26.Model C26.Run C26.Proofs.
+From TV Require Import Lib.Obs C26.Model C26.Seq C26.Run C26.Proofs.
 Local Open Scope N_scope.
 Local Arguments N.eqb : simpl never.
 
@@ -164,27 +164,6 @@ Proof.
 Qed.
 
 (* ---------- the checker on the model's observables ---------- *)
-Definition check_abs (base cwd root raw : str) (st : Z) (loc : obs) (body abs : str) : bool :=
-  abs_okb abs &&
-  match kresolve base (if starts_with_slash root then root else join cwd root) with
-  | None => true
-  | Some (rl, _) =>
-      if prefixb (rev rl) (segs_of abs) then
-        if (st =? 301)%Z then
-          obs_eqb loc (OBytes (raw ++ [SLASH])) && is_empty body
-          && negb (startswith [SLASH; SLASH] raw) && negb (ends_with_slash raw)
-        else
-          ((st =? 200) || (st =? 403) || (st =? 404))%Z && is_onone loc
-          && ((st =? 200)%Z || is_empty body)
-      else
-        (st =? 403)%Z && is_onone loc && is_empty body
-  end.
-
-Lemma check_case_abs : forall base cwd root prefix dflt raw st loc body abs,
-  check_case (base, cwd, root, prefix, dflt, raw) (OList [OInt st; loc; OBytes body; OBytes abs])
-  = check_abs base cwd root raw st loc body abs.
-Proof. reflexivity. Qed.
-
 Lemma list_eqb_N_refl : forall l, list_eqb N.eqb l l = true.
 Proof. induction l as [|a l IH]; simpl; auto. rewrite N.eqb_refl. exact IH. Qed.
 
@@ -241,43 +220,66 @@ Proof.
   rewrite list_eqb_N_refl. reflexivity.
 Qed.
 
-Lemma finish_checked : forall base c fs raw abs s probe,
-  starts_with_slash (c_cwd c) = true -> abs_normal abs s ->
-  startswith (root_slash c) (abs ++ [SLASH]) = true ->
-  match obs_of (finish fs abs probe) with
-  | OList [OInt st; loc; OBytes body; OBytes abs'] =>
-      check_abs base (c_cwd c) (c_root c) raw st loc body abs'
-  | _ => false
-  end = true.
+Lemma respond_ok_file : forall c fs raw abs probe content,
+  respond c fs raw = ROk abs probe content -> fs probe = File content.
 Proof.
-  intros base c fs raw abs s probe Hcwd Habs Hpass. unfold finish.
-  destruct (fs probe) as [| |content]; cbn [obs_of status ostr];
-    eapply check_abs_inside; eauto.
+  intros c fs raw abs probe content. unfold respond. destruct (route c raw); try discriminate.
+  unfold validate.
+  destruct (negb (startswith (root_slash c) (get_absolute_path c path ++ [SLASH]))); [discriminate|].
+  assert (Hfin : forall a p, finish fs a p = ROk abs probe content -> fs probe = File content).
+  { intros a p. unfold finish. destruct (fs p) eqn:E; try discriminate. intros Heq. inversion Heq; subst. exact E. }
+  destruct (is_dir (fs (get_absolute_path c path))); [destruct (c_default c)|]; try apply Hfin.
+  destruct (negb (ends_with_slash raw)); [|apply Hfin].
+  destruct (startswith [SLASH; SLASH] raw); discriminate.
 Qed.
 
-Theorem model_satisfies_checker : forall base cwd root prefix dflt raw,
-  starts_with_slash cwd = true ->
-  check_case (base, cwd, root, prefix, dflt, raw)
-             (run_case (base, cwd, root, prefix, dflt, raw)) = true.
+(* the Etag of the stateless reference with H = identity *)
+Definition model_etag (r : resp) : option str :=
+  match r with ROk _ _ content => truthy (Some content) | _ => None end.
+
+Lemma etag_ok_model : forall content,
+  etag_ok GET 200 content (ostr (truthy (Some content))) = true.
 Proof.
-  intros base cwd root prefix dflt raw Hcwd.
-  unfold run_case. cbn [cfg_of].
-  set (c := {| c_cwd := cwd; c_root := root; c_prefix := prefix; c_default := dflt |}).
-  unfold respond. destruct (route c raw) as [| |path]; try reflexivity.
+  intros content. unfold etag_ok. cbn [Z.eqb Pos.eqb].
+  destruct content as [|x content']; [reflexivity|].
+  apply (list_eqb_N_refl (x :: content')).
+Qed.
+
+(* one request: the model's answer passes check_req *)
+Theorem request_checked : forall base c m raw,
+  starts_with_slash (c_cwd c) = true ->
+  check_req base c m raw
+    (obs_of_out (SReq m (respond c (fs_fix base) raw) (model_etag (respond c (fs_fix base) raw)))) = true.
+Proof.
+  intros base c m raw Hcwd.
+  unfold respond. destruct (route c raw) as [| |path]; [destruct m; reflexivity|destruct m; reflexivity|].
   destruct (gap_normal c path Hcwd) as [s Habs].
   set (abs := get_absolute_path c path) in *.
   unfold validate.
   destruct (startswith (root_slash c) (abs ++ [SLASH])) eqn:Epass; cbn [negb].
-  2:{ cbn [obs_of status ostr]. rewrite check_case_abs. eapply check_abs_403; eauto. }
-  assert (Hfin : forall probe, check_case (base, cwd, root, prefix, dflt, raw)
-                                 (obs_of (finish (fs_fix base) abs probe)) = true).
-  { intros probe. pose proof (finish_checked base c (fs_fix base) raw abs s probe Hcwd Habs Epass) as H.
-    unfold finish in *. destruct (fs_fix base probe); cbn [obs_of status ostr] in *;
-      rewrite check_case_abs; exact H. }
+  2:{ cbn [obs_of_out resp_parts status ostr model_etag check_req etag_ok Z.eqb Pos.eqb is_onone andb].
+      destruct m; cbn [is_empty andb]; eapply check_abs_403; eauto. }
+  assert (Hfin : forall probe,
+            check_req base c m raw
+              (obs_of_out (SReq m (finish (fs_fix base) abs probe)
+                             (model_etag (finish (fs_fix base) abs probe)))) = true).
+  { intros probe. unfold finish. destruct (fs_fix base probe) as [| |content];
+      cbn [obs_of_out resp_parts status ostr model_etag check_req].
+    - cbn [etag_ok Z.eqb Pos.eqb is_onone andb]. destruct m; cbn [is_empty andb];
+        eapply check_abs_inside; eauto.
+    - cbn [etag_ok Z.eqb Pos.eqb is_onone andb]. destruct m; cbn [is_empty andb];
+        eapply check_abs_inside; eauto.
+    - destruct m.
+      + rewrite etag_ok_model. cbn [andb]. eapply check_abs_inside; eauto.
+      + cbn [etag_ok Z.eqb Pos.eqb is_empty andb]. eapply check_abs_inside; eauto. }
   destruct (is_dir (fs_fix base abs)); [|apply Hfin].
   destruct (c_default c) as [d|]; [|apply Hfin].
   destruct (ends_with_slash raw) eqn:Eraw; cbn [negb]; [apply Hfin|].
-  destruct (startswith [SLASH; SLASH] raw) eqn:Ess; cbn [obs_of status ostr]; rewrite check_case_abs.
+  destruct (startswith [SLASH; SLASH] raw) eqn:Ess;
+    cbn [obs_of_out resp_parts status ostr model_etag check_req etag_ok Z.eqb Pos.eqb is_onone andb];
+    destruct m; cbn [is_empty andb].
   - eapply check_abs_403; eauto.
+  - eapply check_abs_403; eauto.
+  - apply (check_abs_redirect base c raw abs s); auto.
   - apply (check_abs_redirect base c raw abs s); auto.
 Qed.
